@@ -517,3 +517,45 @@ PROPS["C05"] = dict(
                "server behaviour; atomicity of the Go mutex/channel primitives and the one-step closeWithErr are "
                "assumed; the tie to the code is by replaying quiescent histories plus sampled concurrent runs.",
 )
+
+
+# ---------------------------------------------------------------- upcancelpoints (C05, C14)
+def upcancelpoints_gen(rng, tier):
+    out = []
+    k = 0
+    for scheme in ("udp", "tcp", "tcp+pipeline"):
+        for warm in (0, 1):
+            for at in range(1, budget(tier, 12, 24)):
+                for delayus in ((400,) if tier == "quick" else (0, 400, 4000)):
+                    out.append("up%d scheme=%s at=%d warm=%d delayus=%d" % (k, scheme, at, warm, delayus))
+                    k += 1
+    return out
+
+
+def upcancelpoints_oracle(line, res):
+    r = gens.fields(res)
+    if "x" not in r:
+        return None
+    xs = r["x"].split(",")
+    if "X" in xs:
+        return "an exchange returned a reply that is not the reply to its own query: " + res
+    if "NIL" in xs:
+        return "an exchange returned neither a message nor an error: " + res
+    for j, o in enumerate(xs[1:], 1):
+        if o != "M":
+            return "follow-up exchange %d after a cancelled one did not get its reply (%s): %s" % (j, o, res)
+    if int(r.get("el", "0")) > 1500:
+        return "the exchange whose context was cancelled returned only after %s ms" % r["el"]
+    return None
+
+
+def upcancelpoints_kind():
+    return dict(name="upcancelpoints", gen=upcancelpoints_gen, oracle=upcancelpoints_oracle, model=False, timeout=600,
+                nontrivial=lambda l, r: True,
+                classify=lambda l, r: gens.fields(l).get("scheme", "?") + "/warm" + gens.fields(l).get("warm", "?") + "/" +
+                gens.fields(r).get("x", "?").split(",")[0])
+
+
+PROPS["C05"]["kinds"].append(upcancelpoints_kind())
+PROPS["C05"]["rule"] += ("; upcancelpoints: udp / tcp / tcp+pipeline upstreams, the caller's context cancelled just before its i-th observation "
+                         "by the code (every i, fresh and warm), then three follow-up exchanges (oracle only)")
